@@ -86,6 +86,27 @@ func checkC11(R *Run) {
 				if arr, _, srcRows := tableRows(c.Args[0]); srcRows != nil {
 					if dj := callValue(c.Args[1]); dj != nil && calleeName(&dj.Call) == "path/filepath.Join" {
 						if a := callArgsFlat(&dj.Call); len(a) == 2 && a[0] == ssa.Value(mv.Params[1]) {
+							// the name column may hold bound method values that the loop calls: `{path: f.xPath, name: f.xName}` … `sf.name()`
+							if nc, isCall := a[1].(*ssa.Call); isCall && !nc.Call.IsInvoke() && nc.Call.StaticCallee() == nil && len(nc.Call.Args) == 0 {
+								if arr2, _, fnRows := tableRows(nc.Call.Value); arr2 == arr && len(fnRows) == len(srcRows) {
+									for k := range srcRows {
+										mc, isMC := fnRows[k].(*ssa.MakeClosure)
+										sf, isF := loadedField(srcRows[k])
+										if !isMC || !isF || len(mc.Bindings) != 1 {
+											continue
+										}
+										bf, _ := mc.Fn.(*ssa.Function)
+										if bf == nil || !strings.HasSuffix(bf.Name(), "$bound") {
+											continue
+										}
+										if m, isM := bf.Object().(*types.Func); isM {
+											name := shortName(m.FullName()) + "(" + P.sym(mc.Bindings[0]) + ")"
+											moved[shortField(sf)] = stripRecvKeepParam(name)
+											movedRaw[shortField(sf)] = stripRecv(name)
+										}
+									}
+								}
+							}
 							if arr2, _, dstRows := tableRows(a[1]); arr2 == arr && len(dstRows) == len(srcRows) {
 								for k := range srcRows {
 									if sf, isF := loadedField(srcRows[k]); isF {
@@ -845,6 +866,9 @@ func tableRowsIdx(v ssa.Value, index *ssa.Value) (*ssa.Alloc, int, []ssa.Value) 
 		cur := x
 		for d := 0; d < 4 && ia == nil; d++ {
 			src := soleStoreAny(cur)
+			if _, isIdx := stripConv(src).(*ssa.Index); isIdx {
+				break // an element of the array value the range statement copied: see below
+			}
 			el, isLd := stripConv(src).(*ssa.UnOp)
 			if !isLd || el.Op != token.MUL {
 				return nil, 0, nil
@@ -859,16 +883,47 @@ func tableRowsIdx(v ssa.Value, index *ssa.Value) (*ssa.Alloc, int, []ssa.Value) 
 			}
 		}
 	}
-	if ia == nil {
-		return nil, 0, nil
-	}
 	var arr *ssa.Alloc
-	switch y := ia.X.(type) {
-	case *ssa.Alloc:
-		arr = y
-	case *ssa.Slice:
-		if a, ok := y.X.(*ssa.Alloc); ok && y.Low == nil && y.High == nil {
-			arr = a
+	var idxVal ssa.Value
+	if ia == nil {
+		// the element taken out of the array value that the range statement copied: `t = *arr; t[i]`
+		if al, isAl := fa.X.(*ssa.Alloc); isAl {
+			cur := al
+			for d := 0; d < 4 && arr == nil; d++ {
+				src := stripConv(soleStoreAny(cur))
+				switch y := src.(type) {
+				case *ssa.Index:
+					if ld, isLd := y.X.(*ssa.UnOp); isLd && ld.Op == token.MUL {
+						if a2, isA := ld.X.(*ssa.Alloc); isA {
+							arr, idxVal = a2, y.Index
+						}
+					}
+					if arr == nil {
+						return nil, 0, nil
+					}
+				case *ssa.UnOp:
+					a2, isA := y.X.(*ssa.Alloc)
+					if y.Op != token.MUL || !isA {
+						return nil, 0, nil
+					}
+					cur = a2
+				default:
+					return nil, 0, nil
+				}
+			}
+		}
+		if arr == nil {
+			return nil, 0, nil
+		}
+	} else {
+		idxVal = ia.Index
+		switch y := ia.X.(type) {
+		case *ssa.Alloc:
+			arr = y
+		case *ssa.Slice:
+			if a, ok := y.X.(*ssa.Alloc); ok && y.Low == nil && y.High == nil {
+				arr = a
+			}
 		}
 	}
 	if arr == nil {
@@ -891,13 +946,13 @@ func tableRowsIdx(v ssa.Value, index *ssa.Value) (*ssa.Alloc, int, []ssa.Value) 
 		arr = a2
 	}
 	at, ok := derefType(arr.Type()).Underlying().(*types.Array)
-	if !ok || !rangeIndexCovers(ia.Index, at.Len()) {
+	if !ok || !rangeIndexCovers(idxVal, at.Len()) {
 		return nil, 0, nil
 	}
 	rows := make([]ssa.Value, at.Len())
 	for _, r := range *arr.Referrers() {
 		e, ok := r.(*ssa.IndexAddr)
-		if !ok || e == ia {
+		if !ok || ia != nil && e == ia {
 			continue
 		}
 		k, isConst := constInt(e.Index)
@@ -939,7 +994,7 @@ func tableRowsIdx(v ssa.Value, index *ssa.Value) (*ssa.Alloc, int, []ssa.Value) 
 		}
 	}
 	if index != nil {
-		*index = ia.Index
+		*index = idxVal
 	}
 	return arr, fa.Field, rows
 }
